@@ -161,9 +161,9 @@ MixSample(i, n) ==
 MixSeq(i, m, salt) == [rle |-> [j \in 1..m |-> <<V(Pick(i, salt + j, -8388607, 8388607), -(Pick(i, salt + 500 + j, 0, 23))), 1>>], order |-> "asc"]
 MixNeg(d) ==
   \A i \in 1..(4 * ND) : \A ty \in {"f64", "f32"} : \A ki \in 1..3 :
-     LET n  == 5 + Pick(900 + i, 11, 0, 55)
+     LET n  == 10 + Pick(900 + i, 11, 0, 50)                          \* n >= 10: the five block sizes of MixSample are >= 0
          da == MixSample(900 + i, n)
-         db == MixSample(1900 + i, 5 + Pick(900 + i, 12, 0, 30))
+         db == MixSample(1900 + i, 10 + Pick(900 + i, 12, 0, 30))
          m  == Pick(900 + i, 13, 3, 40)
          pa == MixSeq(900 + i, m, 2000)
          pb == MixSeq(900 + i, m, 4000)
